@@ -11,6 +11,7 @@ Harnesses (each forces a collision):
   H1e      2 threads connect() to the same database/schema spelled in different letter case
   H1d      3 threads connect() with equal arguments                                   (thorough)
   H7       COMMENT ON TABLE and ALTER TABLE SET COMMENT on the same table against a reader of the comment
+  H8       executemany (two UPDATEs of one row, two MERGE upserts) against another session's UPDATE / MERGE of the same row / key
   H2       two writers insert tagged rows into one table, one reader counts
   H3a      CREATE TABLE .. COMMENT + VARCHAR length (multi-step) against a metadata reader
   H3b      MERGE (multi-step) against a reader of the target
@@ -71,6 +72,16 @@ def s_exec(key, sql, fetch=True, pre=None):
         cur = c.cursor()
         cur.execute(sql)
         return (cur.fetchall() if fetch else None, cur.rowcount)
+
+    return step
+
+
+def s_executemany(key, sql, seq):
+    def step(env, loc):
+        c = loc.get(key) or env["conns"][key]
+        cur = c.cursor()
+        cur.executemany(sql, seq)
+        return cur.rowcount
 
     return step
 
@@ -174,12 +185,19 @@ HARNESSES = {
             [s_meta_table("r", "T7")],
         ],
     ),
+    "H8": (
+        _mk(setup=["create table acc (id int, n int)", "insert into acc values (1, 0)", "create table kv (k int, v varchar)"], conns=("a", "b")),
+        [
+            [s_executemany("a", "update acc set n = n + %s where id = 1", [(1,), (10,)]), s_executemany("a", "merge into kv using (select %s as k, %s as v) s on kv.k = s.k when matched then update set kv.v = s.v when not matched then insert (k, v) values (s.k, s.v)", [(1, "a1"), (2, "a2")])],
+            [s_exec("b", "update acc set n = n + 100 where id = 1"), s_exec("b", "merge into kv using (select 2 as k, 'b' as v) s on kv.k = s.k when matched then update set kv.v = s.v when not matched then insert (k, v) values (s.k, s.v)")],
+        ],
+    ),
     "H4": (
         _mk(setup=["create table t (x int)"], conns=("w",)),
         [[s_connect("db9", "s9", "c"), s_ctx("c")], [s_exec("w", "insert into t values (7)"), s_exec("w", "select x from t order by x")]],
     ),
 }
-QUICK = ["H1a", "H1b", "H1c", "H1e", "H2", "H3a", "H3b", "H4", "H6", "H7"]
+QUICK = ["H1a", "H1b", "H1c", "H1e", "H2", "H3a", "H3b", "H4", "H6", "H7", "H8"]
 BOUNDS = {"quick": {h: 1 for h in HARNESSES}, "thorough": {h: 2 for h in HARNESSES}}
 BOUNDS["thorough"].update({"H1a": 3, "H2": 3})
 
